@@ -307,13 +307,13 @@ func handleExpire(params internal.HandlerFuncParams) ([]byte, error) {
 		if currentExpireAt == (time.Time{}) {
 			return []byte(":0\r\n"), nil
 		}
-		if expireAt.Before(currentExpireAt) {
+		if !expireAt.After(currentExpireAt) {
 			return []byte(":0\r\n"), nil
 		}
 		params.SetExpiry(params.Context, key, expireAt, false)
 	case "lt":
 		if currentExpireAt != (time.Time{}) {
-			if currentExpireAt.Before(expireAt) {
+			if !expireAt.Before(currentExpireAt) {
 				return []byte(":0\r\n"), nil
 			}
 			params.SetExpiry(params.Context, key, expireAt, false)
@@ -374,13 +374,13 @@ func handleExpireAt(params internal.HandlerFuncParams) ([]byte, error) {
 		if currentExpireAt == (time.Time{}) {
 			return []byte(":0\r\n"), nil
 		}
-		if expireAt.Before(currentExpireAt) {
+		if !expireAt.After(currentExpireAt) {
 			return []byte(":0\r\n"), nil
 		}
 		params.SetExpiry(params.Context, key, expireAt, false)
 	case "lt":
 		if currentExpireAt != (time.Time{}) {
-			if currentExpireAt.Before(expireAt) {
+			if !expireAt.Before(currentExpireAt) {
 				return []byte(":0\r\n"), nil
 			}
 			params.SetExpiry(params.Context, key, expireAt, false)
